@@ -619,8 +619,11 @@ theorem bagD_atoms (ms : List (Nat × Expr α)) (E : Expr α) (h : bagD Expr.nod
       cases r with
       | nil => simp [atomsM]
       | cons m2 r2 =>
+        exfalso
         simp only [bagD] at hb
-        cases bagD Expr.node r2 <;> simp at hb
+        cases hb2 : bagD Expr.node r2 with
+        | none => rw [hb2] at hb; exact absurd hb (by simp)
+        | some _ => rw [hb2] at hb; exact absurd hb (by simp)
     | some b =>
       simp only [hb, Option.some.injEq] at h
       subst h
